@@ -1461,10 +1461,16 @@ private:
         // ### Precise analysis of recursive call ###
         // 4.a Replace recursive call with a pre-fixpoint.
         callee_exit = it->second.get_exit();
-        abs_dom_t callee_init(callee_entry);
-	callee_init |= it->second.get_entry();
-	// Super important for termination
-        it->second.set_entry(std::move(callee_init)); 
+	if (!m_ctx.get_is_checking_phase()) {
+	  // The checker can run while the fixpoint is running: it
+	  // only observes the analysis. In particular, the entry of
+	  // the next iteration must not depend on the states
+	  // recomputed by the checker.
+	  abs_dom_t callee_init(callee_entry);
+	  callee_init |= it->second.get_entry();
+	  // Super important for termination
+	  it->second.set_entry(std::move(callee_init));
+	}
         CRAB_LOG("inter", callee_entry = it->second.get_entry();
                  crab::outs()
                  << "[INTER] Replaced recursive call  \"" << cs
@@ -1615,40 +1621,26 @@ private:
 		 << "=====================\n";);
       }
 
-      if (callee_analysis && !m_ctx.included_nested_wto_component(callee_cg_node)) {
-	/***
-	 *** We delay running the checker until the node does not
-	 *** belong to any nested WTO component.
-	 ***/
-      
-	// 6. Check assertions within the whole WTO component.
-	auto check = [this](cg_node_t node) {		       
-		       if (has_analyzer(node)) {
-			 // make sure that the analysis of the
-			 // function has been completed
-			 if (m_ctx.find_call_stack(node)){
-			   return;
-			 }
-			 CRAB_VERBOSE_IF(1, get_msg_stream() << "++ Running checker on "
-					 << node.name() << "\n";);
-			 auto &analysis = get_analyzer(node);
-			 check_function(node, analysis, m_ctx);
-			 CRAB_VERBOSE_IF(1, get_msg_stream() << "++ Finished checker on "
-					 << node.name() << "\n";);
-		       }
-		     };
-	
-	/// Run the checker on the callee
-	check(callee_cg_node);
-	
-	if (m_ctx.get_widening_set().count(callee_cg_node) > 0) {
-	  /// Run the checker recursively on all the callee's nested
-	  /// components.
-	  CRAB_VERBOSE_IF(1, get_msg_stream()
-			  << "++ Running RECURSIVELY the checker starting from "
-			  << callee_cg_node << " on all WTO nested components.\n";);
-	  m_ctx.apply_fn_to_nested_wto_component(callee_cg_node, check);
-	}
+      if (callee_analysis) {
+	// 6. Check the assertions of the callee with the invariants
+	// of this calling context.
+	//
+	// This cannot be delayed until the outermost WTO component of
+	// the call graph that contains the callee has been
+	// stabilized: the intra-procedural analyzer of a function
+	// only keeps the invariants of its last run so the other
+	// calling contexts of the callee (and an analysis of the
+	// callee started from outside the component) would never be
+	// checked. If the fixpoint of a recursive function is running
+	// then the checks are provisional but each fixpoint iteration
+	// re-analyzes (and re-checks) the callee so the checks of the
+	// last iteration are added to the ones of the previous
+	// iterations.
+	CRAB_VERBOSE_IF(1, get_msg_stream() << "++ Running checker on "
+			<< callee_cg_node.name() << "\n";);
+	check_function(callee_cg_node, *callee_analysis, m_ctx);
+	CRAB_VERBOSE_IF(1, get_msg_stream() << "++ Finished checker on "
+			<< callee_cg_node.name() << "\n";);
 
 	/// Free the callee
 	
